@@ -170,6 +170,31 @@ Holds(e, name) ==
          /\ C04_Solves(g, FieldOf(g, cf.xstar), FieldOf(g, o.r_after_explicit))
     [] name = "C03_SolvedRobin" ->
          C03_Robin(g, bc, FieldOf(g, o.r_solve)) /\ C03_Periodic(g, bc, FieldOf(g, o.r_solve))
+    [] name = "C17_Mdiff"  -> C17_MatScaled(MatOf(o.Mdiff), MatOf(o.S.Mdiff), ScaleFactor(OutputDim(g.cls, "Mdiff"), cf.L, cf.T, cf.K))
+    [] name = "C17_Mconv"  -> C17_MatScaled(MatOf(o.Mconv), MatOf(o.S.Mconv), ScaleFactor(OutputDim(g.cls, "Mconv"), cf.L, cf.T, cf.K))
+    [] name = "C17_Mup"    -> C17_MatScaled(MatOf(o.Mup), MatOf(o.S.Mup), ScaleFactor(OutputDim(g.cls, "Mup"), cf.L, cf.T, cf.K))
+    [] name = "C17_Mupalt" -> C17_MatScaled(MatOf(o.Mupalt), MatOf(o.S.Mupalt), ScaleFactor(OutputDim(g.cls, "Mupalt"), cf.L, cf.T, cf.K))
+    [] name = "C17_Msrc"   -> C17_MatScaled(MatOf(o.Msrc), MatOf(o.S.Msrc), ScaleFactor(OutputDim(g.cls, "Msrc"), cf.L, cf.T, cf.K))
+    [] name = "C17_Rsrc"   -> C17_VecScaled(FieldOf(g, o.Rsrc), FieldOf(g, o.S.Rsrc), ScaleFactor(OutputDim(g.cls, "Rsrc"), cf.L, cf.T, cf.K))
+    [] name = "C17_Mbc"    -> \* inert corner / edge rows are excluded (their diagonal is arbitrary)
+         LET live(M) == [p \in {q \in DOMAIN M : GhostDegree(g, q[1]) = 1} |-> M[p]]
+         IN  C17_MatScaled(live(MatOf(o.Mbc)), live(MatOf(o.S.Mbc)), ScaleFactor(OutputDim(g.cls, "Mbc"), cf.L, cf.T, cf.K))
+    [] name = "C17_Rbc"    -> C17_VecScaled(FieldOf(g, o.Rbc), FieldOf(g, o.S.Rbc), ScaleFactor(OutputDim(g.cls, "Rbc"), cf.L, cf.T, cf.K))
+    [] name = "C17_ghost"  -> C17_VecScaled(FieldOf(g, o.ghost), FieldOf(g, o.S.ghost), ScaleFactor(OutputDim(g.cls, "ghost"), cf.L, cf.T, cf.K))
+    [] name = "C17_divu"   -> C17_VecScaled(FieldOf(g, o.divu), FieldOf(g, o.S.divu), ScaleFactor(OutputDim(g.cls, "divu"), cf.L, cf.T, cf.K))
+    [] name = "C17_volume" -> C17_VecScaled(IntFieldOf(g, o.volume), IntFieldOf(g, o.S.volume), ScaleFactor(OutputDim(g.cls, "volume"), cf.L, cf.T, cf.K))
+    [] name = "C17_linmean" -> C17_VecScaled(FaceFieldOf(g, o.linmean), FaceFieldOf(g, o.S.linmean), cf.K)
+    [] name = "C17_upmean"  -> C17_VecScaled(FaceFieldOf(g, o.upmean), FaceFieldOf(g, o.S.upmean), cf.K)
+    [] name = "C17_tvd"    -> C17_VecScaled(FieldOf(g, o.tvd), FieldOf(g, o.S.tvd), ScaleFactor(OutputDim(g.cls, "tvd"), cf.L, cf.T, cf.K))
+    [] name = "C17_grad"   ->
+         \A id \in FaceIds(g) :
+            FaceFieldOf(g, o.S.grad)[id] =
+               RMul(RDiv(cf.K, cf.L), FaceFieldOf(g, o.grad)[id])
+    [] name = "C17_solution" -> C17_VecScaled(FieldOf(g, o.r_solve), FieldOf(g, o.S.r_solve), cf.K)
+    [] name = "C17_LinearDiff" -> C17_MatLinear(MatOf(o.Mdiff), MatOf(o.Lin.Mdiff2), MatOf(o.Lin.Mdiff12), cf.lam, cf.mu)
+    [] name = "C17_LinearConv" -> C17_MatLinear(MatOf(o.Mconv), MatOf(o.Lin.Mconv2), MatOf(o.Lin.Mconv12), cf.lam, cf.mu)
+    [] name = "C17_LinearUp"   -> C17_MatLinear(MatOf(o.Mupalt), MatOf(o.Lin.Mup2), MatOf(o.Lin.Mup12), cf.lam, cf.mu)
+    [] name = "C17_LinearSrc"  -> C17_MatLinear(MatOf(o.Msrc), MatOf(o.Lin.Msrc2), MatOf(o.Lin.Msrc12), cf.lam, cf.mu)
     [] name = "C04_DiffInterior" -> InteriorRowsOnly(g, MatOf(o.Mdiff))
     [] name = "C04_ConvInterior" -> InteriorRowsOnly(g, MatOf(o.Mconv))
     [] name = "C04_UpInterior"   -> InteriorRowsOnly(g, MatOf(o.Mup))
